@@ -21,7 +21,7 @@ ASSUMPTIONS = ["maps that would produce duplicate names are not generated"]
 MIN_NONTRIVIAL = {"quick": 70, "thorough": 700}
 REQUIRED_FEATURES = ["encoding:enum", "encoding:int", "map:swap", "map:longer-name", "map:shorter-name", "map:rename-back",
                      "map:partial", "chain:>1", "check:live-object", "check:reopened",
-                     "many-contigs:enum-to-int-fallback"]
+                     "many-contigs:enum-to-int-fallback", "location:nested-group", "location:nested-group+root-cooler"]
 
 
 def plan(tier, seed):
@@ -65,9 +65,9 @@ def snapshot(clr, names):
     return snap
 
 
-def raw_nonname_digest(path):
+def raw_nonname_digest(path, group="/"):
     with h5py.File(path, "r") as f:
-        return h5state.content_digest(f["/"], attrs=True, skip_cols=(("chroms", "name"),))
+        return h5state.content_digest(f[group], attrs=True, skip_cols=(("chroms", "name"),))
 
 
 def one_chain(ctx, cid, rng, idx):
@@ -83,18 +83,26 @@ def one_chain(ctx, cid, rng, idx):
     w = rng.uniform(0.5, 2.0, size=n)
     w[rng.random(n) < 0.15] = np.nan
     path = ctx.path()
-    make_cooler(path, bt, P, symm=symm, bins_extra={"weight": w})
+    group = ["/", "/", "/resolutions/1000", "/sub/grp"][idx % 4]
+    root_too = group != "/" and idx % 8 >= 4
+    if root_too:
+        # the file's root is a cooler as well: it must not be touched by renaming the nested one
+        make_cooler(path, [["rootA", [0, 5, 10]], ["rootB", [0, 5]]], {(0, 1): 3, (2, 2): 1})
+    uri = path if group == "/" else path + "::" + group
+    make_cooler(uri, bt, P, symm=symm, bins_extra={"weight": w}, mode="a")
     enc = "int" if idx % 2 else "enum"
     if enc == "int":
-        to_int_encoding(path)
+        to_int_encoding(path, group)
     names = [c_ for c_, _ in bt]
     lengths = [e[-1] for _, e in bt]
     steps = int(rng.integers(1, 5))
     chain = []
     with ctx.case(cid, {"bt": bt, "symm": symm, "encoding": enc, "chain": chain}) as c:
         c.feature(f"encoding:{enc}")
-        clr = cooler.Cooler(path)
-        dig0 = raw_nonname_digest(path)
+        c.feature("location:root" if group == "/" else "location:nested-group" + ("+root-cooler" if root_too else ""))
+        clr = cooler.Cooler(uri)
+        dig0 = raw_nonname_digest(path, group)
+        root_dig0 = h5state.digest_uri(path, "/") if root_too else None
         snap0 = snapshot(clr, names)
         cur = list(names)
         orig_of = {nm: nm for nm in names}      # current name -> original name
@@ -142,7 +150,7 @@ def one_chain(ctx, cid, rng, idx):
             history.append(list(cur))
             if len(chain) > 1:
                 c.feature("chain:>1")
-            for label, obj in (("live-object", clr), ("reopened", cooler.Cooler(path))):
+            for label, obj in (("live-object", clr), ("reopened", cooler.Cooler(uri))):
                 c.feature(f"check:{label}")
                 ok = c.check(obj.chromnames == cur, f"chromnames-wrong:{label}",
                              f"[{label}] chromnames {obj.chromnames} != {cur} after {chain}")
@@ -179,9 +187,12 @@ def one_chain(ctx, cid, rng, idx):
                     except (ValueError, KeyError):
                         raised = True
                     c.check(raised, f"old-name-still-resolves:{label}", f"[{label}] old name {nm!r} still resolves after {chain}")
-            c.check(raw_nonname_digest(path) == dig0, "non-name-data-changed",
+            c.check(raw_nonname_digest(path, group) == dig0, "non-name-data-changed",
                     f"lengths / bins / pixels / indexes / attributes changed by renaming {chain}")
-            bad = h5state.validate_uri(path)
+            if root_too:
+                c.check(h5state.digest_uri(path, "/") == root_dig0, "other-collection-changed-by-rename",
+                        "renaming the chromosomes of a nested collection changed the collection at the file's root")
+            bad = h5state.validate_uri(path, group)
             for key, msg in bad:
                 c.fail(f"invalid-after-rename:{key}", msg)
         if len(names) >= 2 and chain:
